@@ -287,10 +287,18 @@ def wrap_phase(IP, ncycles=1, mode='2pi'):
     if mode not in ['2pi', '-pi2pi']:
         raise ValueError("Invalid mode value")
 
+    upper = ncycles * 2 * np.pi
     if mode == '2pi':
-        phases = (IP) % (ncycles * 2 * np.pi)
+        phases = (IP) % upper
     elif mode == '-pi2pi':
-        phases = (IP + (np.pi * ncycles)) % (ncycles * 2 * np.pi) - (np.pi * ncycles)
+        phases = (IP + (np.pi * ncycles)) % upper
+
+    # The remainder of a tiny negative number rounds up to exactly the upper
+    # bound, which belongs to the next wrap - the range is half open
+    phases = phases - upper * (phases == upper)
+
+    if mode == '-pi2pi':
+        phases = phases - (np.pi * ncycles)
 
     return phases
 
